@@ -191,7 +191,12 @@ class PASHARungSystem(PromotionRungSystem):
         )
         for epoch in range(top_epoch, bottom_epoch, -1):
             if len(self.epoch_to_trials[epoch]) > 1:
-                for pair in itertools.combinations(self.epoch_to_trials[epoch], 2):
+                # Note: ``epoch_to_trials[epoch]`` is a set of strings. Its iteration
+                # order depends on ``PYTHONHASHSEED``, and the test below is not
+                # symmetric in ``(c1, c2)`` if metric values are tied
+                for pair in itertools.combinations(
+                    sorted(self.epoch_to_trials[epoch]), 2
+                ):
                     c1, c2 = pair[0], pair[1]
                     if (c1, c2) not in seen_pairs:
                         seen_pairs.add((c1, c2))
